@@ -1,3 +1,5 @@
+//go:build go1.21
+
 package vsched
 
 import (
@@ -112,8 +114,17 @@ func varOf(site string) string {
 	return site
 }
 
+// escapeSink forces every instrumented variable onto the heap: stack addresses
+// are reused between goroutines and move when a stack grows, so they cannot
+// serve as identities in the shadow memory.
+var escapeSink unsafe.Pointer
+var escapeOn bool
+
 // Rd records a read of *p and returns p.
 func Rd[T any](p *T, site string) *T {
+	if escapeOn {
+		escapeSink = unsafe.Pointer(p)
+	}
 	if s := cur.Load(); s != nil {
 		s.access(uintptr(unsafe.Pointer(p)), false, site)
 	}
@@ -122,6 +133,9 @@ func Rd[T any](p *T, site string) *T {
 
 // Wr records a write of *p and returns p.
 func Wr[T any](p *T, site string) *T {
+	if escapeOn {
+		escapeSink = unsafe.Pointer(p)
+	}
 	if s := cur.Load(); s != nil {
 		s.access(uintptr(unsafe.Pointer(p)), true, site)
 	}
